@@ -33,6 +33,9 @@ func rulesC18(c *Ctx) {
 	ruleC18Pool(c)
 	ruleRestoreSwap(c, "C18.RESTORELOCK")
 	ruleC18ReadPath(c)
+	// a snapshot taken inside a read transaction is that transaction's state (copied through it, not through the
+	// database handle)
+	ruleC17Snapshot(c)
 	ruleC18View(c)
 	ruleC18ClosureState(c)
 	ruleFreshDefaultContext(c, "C18.FRESHCTX")
